@@ -413,6 +413,35 @@ func (rn *runner) addr(tag string, pk []byte) string {
 	return r
 }
 
+// scacheOp: eth_tx.Sender on one decoded object with a sequence of signers (the per-object sigCache).
+func (rn *runner) scacheOp(enc []byte, chains []*big.Int) {
+	o := newOracle()
+	var cs []string
+	for _, ch := range chains {
+		ethOracle(o, enc, ch)
+		cs = append(cs, ch.String())
+	}
+	line := "scache " + hx.Hex(enc) + " " + strings.Join(cs, ",") + o.String()
+	r := rn.out.Do(line, func() string {
+		et := new(eth_tx.Transaction)
+		if err := rlp.DecodeBytes(enc, et); err != nil {
+			return "err-decode"
+		}
+		var outs []string
+		for _, ch := range chains {
+			a, err := eth_tx.Sender(eth_tx.NewEIP155Signer(ch), et)
+			if err != nil {
+				outs = append(outs, "err")
+			} else {
+				outs = append(outs, hx.Hex(a.Bytes()))
+			}
+		}
+		return strings.Join(outs, " ")
+	})
+	rn.tags["scache"]++
+	_ = r
+}
+
 // signPathOps: the Go code around the library's signature on the signing side —
 // Signer.SignatureValues (Frontier/Homestead and EIP-155, incl. byte wrap-around and chain id 0)
 // and the native secp256k1.Sign wrapper (recovery id + 27).
@@ -1307,6 +1336,17 @@ func main() {
 		rn.vt("eth-honest", c, height, wtx)
 		rn.conv("conv-honest", chain, enc)
 		rn.signPathOps(g, k, chain, et)
+		{
+			// the sender cache: same object, signers of this chain, another chain, this chain again, …
+			oc2 := new(big.Int).Add(chain, big.NewInt(1))
+			seqs := [][]*big.Int{{chain, chain, oc2, chain}, {oc2, chain, chain, oc2, oc2}, {chain, new(big.Int), chain}}
+			rn.scacheOp(enc, seqs[i%3])
+			if hom, err := eth_tx.SignTx(g.ethUnsigned(), eth_tx.HomesteadSigner{}, k); err == nil {
+				if henc, err := rlp.EncodeToBytes(hom); err == nil {
+					rn.scacheOp(henc, seqs[(i+1)%3]) // unprotected: every EIP-155 signer falls back to Homestead
+				}
+			}
+		}
 		rn.batchOps(g, pool2, c, height, i)
 		// padding classes of the payload signature: r or s with a leading zero byte (31-byte RLP strings)
 		for _, class := range []string{"short-r", "short-s"} {
